@@ -84,7 +84,9 @@ func (publisherSelf *PublisherDef[T]) Publish(result T) {
 		subscribers = publisherSelf.subscribers
 	})
 
+	verifPoint("publisher.publish.afterSnapshot")
 	for _, s := range subscribers {
+		verifPoint("publisher.publish.beforeDelivery")
 		if s.OnNext != nil {
 
 			doSub := func() {
